@@ -28,6 +28,16 @@ pub(crate) enum MemfsGuard<'a> {
     Write(RwLockWriteGuard<'a, MemfsInner>),
 }
 
+#[cfg(rivia_verif)]
+impl<'a> Drop for MemfsGuard<'a> {
+    fn drop(&mut self) {
+        super::verif::emit(super::verif::GuardEvent::Releasing(match self {
+            MemfsGuard::Read(_) => super::verif::GuardKind::Read,
+            MemfsGuard::Write(_) => super::verif::GuardKind::Write,
+        }));
+    }
+}
+
 impl<'a> MemfsGuard<'a> {
     pub(crate) fn contains_entry(&self, path: &Path) -> bool {
         match self {
@@ -150,11 +160,15 @@ impl Memfs {
 
     // Create a MemfsGuard::Read
     pub(crate) fn read_guard(&self) -> MemfsGuard {
+        #[cfg(rivia_verif)]
+        let _verif = super::verif::Acquiring::new(super::verif::GuardKind::Read);
         MemfsGuard::Read(self.0.read().unwrap())
     }
 
     // Create a MemfsGuard::write
     pub(crate) fn write_guard(&self) -> MemfsGuard {
+        #[cfg(rivia_verif)]
+        let _verif = super::verif::Acquiring::new(super::verif::GuardKind::Write);
         MemfsGuard::Write(self.0.write().unwrap())
     }
 
